@@ -168,6 +168,10 @@ func phyChain(c *decCase, text bool) func(b []byte) bool {
 				func() { _, _ = q.ValidateUplinkDataMIC(lorawan.LoRaWAN1_0, 0, 0, 0, k, k) },
 				func() { _ = q.SetDownlinkDataMIC(lorawan.LoRaWAN1_1, 1, k) },
 				func() { _ = q.SetUplinkJoinMIC(k) },
+				// registration of a proprietary command the input may carry, with size 0 and with a size (the registry is reset per case)
+				func() { _ = lorawan.RegisterProprietaryMACCommand(c.Uplink, propCID(b), 0) },
+				func() { _ = lorawan.RegisterProprietaryMACCommand(!c.Uplink, propCID(b), 0) },
+				func() { _ = lorawan.RegisterProprietaryMACCommand(c.Uplink, propCID(b), 1+int(propCID(b))%5) },
 			}
 			for _, o := range c.Ops {
 				methods[((o%len(methods))+len(methods))%len(methods)]()
@@ -175,6 +179,23 @@ func phyChain(c *decCase, text bool) func(b []byte) bool {
 		}
 		return true
 	}
+}
+
+// propCID: the first byte of the input that can be a proprietary CID (0x80..0xff), else 0x80.
+func propCID(b []byte) lorawan.CID {
+	for _, x := range b[minInt(len(b), 8):] {
+		if x >= 0x80 {
+			return lorawan.CID(x)
+		}
+	}
+	return 0x80
+}
+
+func minInt(a, b int) int {
+	if a < b {
+		return a
+	}
+	return b
 }
 
 func decoderEntry(d *gen.Decoder, c *decCase) func(b []byte) bool {
@@ -429,7 +450,7 @@ func genPHY(t *rapid.T) decCase {
 		}
 	}
 	c.Input = b
-	c.Ops = rapid.SliceOfN(rapid.IntRange(0, 12), 0, 8).Draw(t, "ops")
+	c.Ops = rapid.SliceOfN(rapid.IntRange(0, 15), 0, 8).Draw(t, "ops")
 	return c
 }
 
@@ -680,7 +701,7 @@ func TestProp(t *testing.T) {
 		}, checkDec)
 
 	evid.Rapid(r, t, "phy-chain",
-		"rapid: PHYPayload.UnmarshalBinary / UnmarshalText (base64, truncated base64, arbitrary strings) on uniform / constant bytes, data frames whose FOpts and port-0 payload are arbitrary bytes, join-accept sized inputs and mutated valid frames (truncate, extend, flip, FOptsLen nibble, overwrite, duplicate); on whatever decodes: Marshal*, JSON, every Validate*, DecodeFOpts/FRMPayloadToMACCommands, Decrypt/EncryptFOpts, Decrypt/EncryptFRMPayload, Decrypt/EncryptJoinAcceptPayload with a key from the case, plus a generated history of 0..8 such calls applied to ONE decoded value (decode after decode, decode after decrypt, ...). Oracle: returns normally (panic reported with input), within the watchdog, input bytes and spare capacity unchanged, decoded item count bounded by the input length. Non-trivial: the frame decoder accepted the input (a payload decoder was reached).",
+		"rapid: PHYPayload.UnmarshalBinary / UnmarshalText (base64, truncated base64, arbitrary strings) on uniform / constant bytes, data frames whose FOpts and port-0 payload are arbitrary bytes, join-accept sized inputs and mutated valid frames (truncate, extend, flip, FOptsLen nibble, overwrite, duplicate); on whatever decodes: Marshal*, JSON, every Validate*, DecodeFOpts/FRMPayloadToMACCommands, Decrypt/EncryptFOpts, Decrypt/EncryptFRMPayload, Decrypt/EncryptJoinAcceptPayload with a key from the case, plus a generated history of 0..8 such calls applied to ONE decoded value (decode after decode, decode after decrypt, ...), among them registrations of a proprietary CID taken from the input with size 0 or 1..5 in either direction. Oracle: returns normally (panic reported with input), within the watchdog, input bytes and spare capacity unchanged, decoded item count bounded by the input length. Non-trivial: the frame decoder accepted the input (a payload decoder was reached).",
 		150000, 6000000, genPHY, checkDec)
 
 	evid.Rapid(r, t, "binary-decoders",
